@@ -64,7 +64,7 @@ def liabShares (b : Bank) (value : Int) : Res Int := math (div? value b.lsv)
 def balanceDecimals (b : Bank) : Int :=
   if b.assetTag = ASSET_TAG_DRIFT then DRIFT_SCALED_BALANCE_DECIMALS else b.mintDecimals
 
-def exp10 (d : Int) : Option Int := if 0 ≤ d then EXP_10_I80F48[d.toNat]? else none
+def exp10 (d : Int) : Option Int := if 0 ≤ d then POW10FX[d.toNat]? else none
 
 /-- the deposit limit as I80F48 (Drift banks: `scale_drift_deposit_limit`) -/
 def depositLimitFx (b : Bank) : Res Int :=
